@@ -252,17 +252,30 @@ Proof.
     replace (N.to_nat (i - 1) - 9)%nat with (N.to_nat (i - 10)) by lia. exact C.
 Qed.
 
-Definition ctx_of (L : list text) : symctx := system_ctx ++ map Some L.
+Definition ctx_of (L : list text) : symctx :=
+  match L with [] => system_ctx | _ => system_ctx ++ [Slots (map Some L)] end.
 
 Lemma resolve_known L t : known L t ->
   resolve_sid (ctx_of L) (sid L t) = Some (SymText t) /\ 1 <= sid L t /\ sid L t < 10 + N.of_nat (length L).
 Proof.
   intros [i Hi]. unfold sid. rewrite Hi. destruct (find_by_name_spec _ _ _ Hi) as (A & B & C).
-  split; [|split; assumption]. unfold resolve_sid, ctx_of, system_ctx.
-  replace (i =? 0) with false by lia.
-  replace (N.of_nat (length (map Some system_symbols ++ map Some L)) <? i) with false
-    by (rewrite app_length, !map_length; pose proof system_len as SL; symmetry; apply N.ltb_ge; lia).
-  rewrite <- map_app, nth_error_map, C. reflexivity.
+  split; [|split; assumption]. unfold resolve_sid. replace (i =? 0) with false by lia.
+  pose proof system_len as SL.
+  assert (E : ctx_slot (ctx_of L) (i - 1) = Some (Some t)).
+  { destruct (i - 1 <? 9) eqn:E9.
+    - rewrite nth_error_app1 in C by lia.
+      assert (E1 : ctx_slot system_ctx (i - 1) = Some (Some t)).
+      { unfold system_ctx. cbn [ctx_slot seg_size]. rewrite map_length, SL. change (N.of_nat 9) with 9. rewrite E9.
+        rewrite nth_error_map, C. reflexivity. }
+      destruct L; [exact E1|]. unfold ctx_of, system_ctx in *. cbn [app ctx_slot seg_size] in *.
+      rewrite map_length, SL in *. change (N.of_nat 9) with 9 in *. rewrite E9 in *. exact E1.
+    - rewrite nth_error_app2 in C by lia. destruct L as [|t0 L0]; [destruct (N.to_nat (i - 1) - length system_symbols)%nat; discriminate|].
+      unfold ctx_of, system_ctx. cbn [app ctx_slot seg_size].
+      rewrite !map_length, SL. change (N.of_nat 9) with 9. rewrite E9.
+      replace (i - 1 - 9 <? N.of_nat (length (t0 :: L0))) with true by lia.
+      rewrite nth_error_map. replace (N.to_nat (i - 1 - 9)) with (N.to_nat (i - 1) - length system_symbols)%nat by lia.
+      rewrite C. reflexivity. }
+  rewrite E. reflexivity.
 Qed.
 (* ---- one step of the specification decoder ------------------------------------------------------------ *)
 Definition sp_payload (f : nat) (ctx : symctx) (t len : N) (body rest : list N) : option (option value * list N) :=
@@ -754,7 +767,7 @@ Lemma sp_stream_step k ctx tag r : tag <> 224 ->
   | Some (None, r') => sp_stream k ctx r'
   | Some (Some v, r') =>
     match is_lst v with
-    | Some fs => sp_stream k (apply_lst ctx fs) r'
+    | Some fs => match apply_lst ctx fs with Some ctx' => sp_stream k ctx' r' | None => None end
     | None => option_map (cons v) (sp_stream k ctx r')
     end
   | None => None
@@ -802,14 +815,15 @@ Proof.
 Qed.
 
 Lemma ctx_of_nil : ctx_of [] = system_ctx.
-Proof. unfold ctx_of. cbn [map]. apply app_nil_r. Qed.
+Proof. reflexivity. Qed.
 
-Lemma apply_lst_value ctx L : exists fs, is_lst (lst_value L) = Some fs /\ apply_lst ctx fs = ctx_of L.
+Lemma apply_lst_value ctx L : L <> [] -> exists fs, is_lst (lst_value L) = Some fs /\ apply_lst ctx fs = Some (ctx_of L).
 Proof.
-  eexists. split; [reflexivity|]. unfold apply_lst, ctx_of.
+  intros Hne. eexists. split; [reflexivity|]. unfold apply_lst.
+  change (count_field _ "symbols") with 1%nat. change (count_field _ "imports") with 0%nat. cbn [Nat.ltb Nat.leb orb].
   change (find_field _ "symbols") with (Some (VList (map VString L))).
   change (find_field _ "imports") with (@None value). cbn [option_map]. f_equal.
-  unfold lst_symbols. cbn [option_map strip_ann]. rewrite map_map. reflexivity.
+  unfold lst_symbols. cbn [option_map strip_ann]. rewrite map_map. destruct L; [contradiction|]. reflexivity.
 Qed.
 
 Lemma lst_length L : (length L <= length (enc [] (lst_value L)))%nat.
@@ -839,6 +853,7 @@ Proof.
   - cbn [enc_lst app length] in *. rewrite <- ctx_of_nil.
     apply sp_stream_values; [cbn; unfold two63; lia|exact Hw|exact Hk|lia|lia].
   - rewrite <- EL in *. assert (HeL : enc_lst L = enc [] (lst_value L)) by (rewrite EL; reflexivity).
+    assert (HneL : L <> []) by (rewrite EL; discriminate).
     rewrite HeL in *. clear EL.
     pose proof (lst_length L) as HlL.
     assert (HL : N.of_nat (length L) < two63) by lia.
@@ -849,6 +864,6 @@ Proof.
                   (flat_map (enc L) vs) ltac:(lia) ltac:(lia)) as Hv.
     rewrite ctx_of_nil in Hv. rewrite E in Hv |- *. cbn [app length] in Hv |- *.
     rewrite sp_stream_step by exact Htag. rewrite Hv.
-    destruct (apply_lst_value system_ctx L) as (fs & -> & ->).
+    destruct (apply_lst_value system_ctx L HneL) as (fs & -> & ->).
     apply sp_stream_values; [exact HL|exact Hw|exact Hk|lia|lia].
 Qed.
